@@ -92,6 +92,8 @@ def run(ctx):
                 pairs["merged_something"] += 1
             if kv["closedA"] == "true" and kv["closedB"] == "true":
                 pairs["closed"] += 1
+            if kv.get("rsim") == "true":
+                pairs["converse_map_exists"] = pairs.get("converse_map_exists", 0) + 1
             if kv["det"] == "ok":
                 pairs["det_ok"] += 1
             else:
